@@ -1,312 +1,270 @@
-(* C17 lemmas.  Part 1: state access, the reference depth-first evaluation, and the refinement
-   InnerModuleEvaluation (model of the Rust) -> reference, for graphs without top-level await. *)
-From Coq Require Import List Arith Bool Lia Relations.
-From C17 Require Import Modules.
+(* C17 lemmas, part 5: the property statements for synchronous graphs, derived from evaluate_spec.
+   (Parts 1-4: PBase_C17, PInv_C17, PEval_C17, PTop_C17; part 6, loading: PLoad_C17; part 7, linking: PLink_C17.) *)
+From Coq Require Import List Arith Bool Lia.
+From C17 Require Import Modules Spec_C17.
+From C17 Require Export PBase_C17 PInv_C17 PEval_C17 PTop_C17 PLoad_C17 PLink_C17.
 Import ListNotations.
 
+Section OneEvaluation.
+  Variables (cf : cfg) (g : graph) (fuel : nat) (s : gstate) (m : nat) (s' : gstate) (r : res nat).
+  Hypothesis Hsync : sync g.
+  Hypothesis Hready : Ready g s.
+  Hypothesis Hlinked : evaluable (status_of s m) = true.
+  Hypothesis Hfuel : length g < fuel.
+  Hypothesis Hev : evaluate cf fuel g s m = (s', r).
+
+  Let P : ev_post g s m s' r := evaluate_spec cf g Hsync fuel s m s' r Hready Hlinked Hfuel Hev.
+
+  Lemma L_total : exists c, r = ROk c.
+  Proof. destruct (EP_res _ _ _ _ _ P) as (c & e & H & _). eauto. Qed.
+
+  Lemma L_ready : Ready g s' /\ forall x, evaluable (status_of s x) = true -> evaluable (status_of s' x) = true.
+  Proof. split; [apply (EP_ready _ _ _ _ _ P)|apply (EP_evaluable _ _ _ _ _ P)]. Qed.
+
+  Lemma L_once : NoDup (slog s').
+  Proof. apply R_nodup with (g := g). apply (EP_ready _ _ _ _ _ P). Qed.
+
+  Lemma L_deps_first : forall l1 x l2 d, slog s' = l1 ++ RStart x :: l2 -> ncdep g x d -> In (REnd d) l1.
+  Proof.
+    intros l1 x l2 d Hl Hd. eapply DF_app_inv; [|exact Hl|exact Hd].
+    apply R_df. apply (EP_ready _ _ _ _ _ P).
+  Qed.
+
+  Lemma L_order : forall vis, represents s vis ->
+    exists vis' l thr, dfs g (badf s) vis m vis' l thr /\ slog s' = slog s ++ l /\ represents s' vis' /\
+      recorded s' m = Some (option_map EThrow thr).
+  Proof. apply (EP_order _ _ _ _ _ P). Qed.
+
+  Lemma recorded_ok_closure : forall x, recorded s' x = Some None ->
+    forall d, reach g x d -> recorded s' d = Some None /\ In (REnd d) (slog s') /\ throws g d = false.
+  Proof.
+    pose proof (EP_ready _ _ _ _ _ P) as HR.
+    intros x Hx d Hr. induction Hr as [x|x y z Hxy Hyz IH].
+    - unfold recorded in Hx. destruct (status_of s' x) eqn:E; try discriminate. inversion Hx; subst.
+      destruct (R_ok _ _ HR _ _ _ E) as (_ & Ht & He & _). unfold recorded. rewrite E. auto.
+    - apply IH. unfold recorded in Hx. destruct (status_of s' x) eqn:E; try discriminate. inversion Hx; subst.
+      destruct (R_ok _ _ HR _ _ _ E) as (_ & _ & _ & Hz). specialize (Hz y Hxy).
+      unfold recorded. destruct (status_of s' y); try discriminate. destruct err; try discriminate. reflexivity.
+  Qed.
+
+  Lemma L_errors :
+    exists e, recorded s' m = Some e /\
+      (e = None <-> forall d, reach g m d -> throws g d = false) /\
+      (forall x err, recorded s' x = Some (Some err) ->
+         exists t, err = EThrow t /\ throws g t = true /\ reach g x t /\
+                   In (RStart t) (slog s') /\ ~ In (REnd t) (slog s')) /\
+      (forall x, recorded s' x = Some None ->
+         forall d, reach g x d -> recorded s' d = Some None /\ In (REnd d) (slog s')).
+  Proof.
+    pose proof (EP_ready _ _ _ _ _ P) as HR.
+    assert (Hbad : forall x err, recorded s' x = Some (Some err) ->
+         exists t, err = EThrow t /\ throws g t = true /\ reach g x t /\
+                   In (RStart t) (slog s') /\ ~ In (REnd t) (slog s')).
+    { intros x err Hx. unfold recorded in Hx. destruct (status_of s' x) eqn:E; try discriminate. inversion Hx; subst.
+      destruct (R_bad _ _ HR _ _ _ _ E) as (_ & t & H1 & H2 & H3 & _ & H5 & H6). exists t. auto. }
+    destruct (EP_res _ _ _ _ _ P) as (c & e & _ & Hrec & _). exists e. split; [assumption|].
+    split; [|split; [assumption|]].
+    - split.
+      + intros -> d Hd. apply (recorded_ok_closure m Hrec d Hd).
+      + intros Hall. destruct e as [err|]; [|reflexivity].
+        destruct (Hbad m err Hrec) as (t & _ & Ht & Hmt & _). rewrite (Hall t Hmt) in Ht. discriminate.
+    - intros x Hx d Hd. destruct (recorded_ok_closure x Hx d Hd) as (H1 & H2 & _). auto.
+  Qed.
+
+  Lemma L_outcome : forall c, r = ROk c -> tlc_of (status_of s m) = None ->
+    exists e, recorded s' m = Some e /\ promise_state s' c = outcome_of e /\ c = length (gs_proms s).
+  Proof.
+    intros c -> Ht. destruct (EP_res _ _ _ _ _ P) as (c' & e & Hr & Hrec & Hfresh & _). inversion Hr; subst c'.
+    destruct (Hfresh Ht) as [H1 H2]. exists e. auto.
+  Qed.
+
+  (* evaluating again: the same promise, the same state, nothing runs, nothing is loaded *)
+  Lemma L_idempotent_first : forall a, status_of s m = Linked a -> evaluate cf fuel g s' m = (s', r).
+  Proof.
+    intros a Ha. pose proof (EP_tlc _ _ _ _ _ P a Ha) as Ht.
+    destruct (EP_res _ _ _ _ _ P) as (c & e & -> & Hrec & Hfresh & _).
+    assert (Hnone : tlc_of (status_of s m) = None) by (rewrite Ha; reflexivity).
+    destruct (Hfresh Hnone) as [-> _].
+    rewrite evaluate_eq. unfold recorded in Hrec.
+    destruct (status_of s' m) eqn:E; try discriminate. simpl in Ht. subst tlc. reflexivity.
+  Qed.
+End OneEvaluation.
+
+(* a second evaluation in general (also for a module first evaluated as a dependency) *)
+Lemma L_recorded : forall cf g fuel s m s' r tl cr e,
+  sync g -> Ready g s -> status_of s m = Evaluated tl cr e -> length g < fuel ->
+  evaluate cf fuel g s m = (s', r) ->
+  slog s' = slog s /\ (forall x, status_of s' x = status_of s x) /\ gs_loads s' = gs_loads s /\
+  exists c, r = ROk c /\ (tl = None -> promise_state s' c = outcome_of e) /\ (forall c0, tl = Some c0 -> c = c0 /\ s' = s).
+Proof.
+  intros cf g fuel s m s' r tl cr e Hsync HR Em Hfuel Hev.
+  assert (Hl : evaluable (status_of s m) = true) by (rewrite Em; reflexivity).
+  pose proof (evaluate_spec cf g Hsync fuel s m s' r HR Hl Hfuel Hev) as P.
+  destruct (represents_exists g s HR) as (vis & Hvis).
+  destruct (EP_order _ _ _ _ _ P vis Hvis) as (vis' & l & thr & Hd & Hlog & _ & Hrec).
+  assert (Hl0 : l = []).
+  { destruct (dfs_of_evaluated g s vis m _ _ _ HR Hvis Em) as (thr0 & Hd0 & _).
+    inversion Hd; subst; try reflexivity.
+    - exfalso. apply H0. apply Hvis; rewrite Em; reflexivity.
+    - exfalso. apply H0. apply Hvis; rewrite Em; reflexivity. }
+  subst l. rewrite app_nil_r in Hlog. split; [assumption|].
+  pose proof (EP_ready _ _ _ _ _ P) as HR'.
+  assert (Hst : forall x, status_of s' x = status_of s x).
+  { destruct (EP_res _ _ _ _ _ P) as (c & e' & _ & _ & _ & Hsome).
+    rewrite evaluate_eq, Em in Hev. destruct tl as [c0|].
+    - inversion Hev; subst. reflexivity.
+    - assert (Hcr : exists tl', status_of s cr = Evaluated tl' cr e).
+      { destruct e as [e|].
+        - destruct (R_bad _ _ HR _ _ _ _ Em) as (-> & _). eauto.
+        - destruct (R_ok _ _ HR _ _ _ Em) as ((tl' & H) & _). eauto. }
+      destruct Hcr as (tl' & Ecr).
+      assert (Hf0 : 0 < fuel) by lia.
+      apply (go_evaluated cf fuel g s cr tl' cr e s' r Hf0 Ecr Hev). }
+  split; [assumption|]. split; [apply (EP_aux _ _ _ _ _ P)|].
+  destruct (EP_res _ _ _ _ _ P) as (c & e' & -> & Hrec' & Hfresh & Hsome). exists c. split; [reflexivity|].
+  assert (e' = e).
+  { unfold recorded in Hrec'. rewrite Hst, Em in Hrec'. inversion Hrec'. reflexivity. }
+  subst e'. rewrite Em in Hfresh, Hsome. simpl in Hfresh, Hsome. split.
+  - intros ->. apply Hfresh. reflexivity.
+  - intros c0 ->. apply Hsome. reflexivity.
+Qed.
+
 (* ------------------------------------------------------------------------------------------ *)
-(* state access *)
+(* any number of evaluations, any entry modules *)
 
-Lemma getm_setm : forall s m v m', getm (setm s m v) m' = if m =? m' then v else getm s m'.
-Proof. intros. unfold getm, setm. simpl. reflexivity. Qed.
-
-Lemma status_set_status : forall s m st m',
-  status_of (set_status s m st) m' = if m =? m' then st else status_of s m'.
-Proof.
-  intros. unfold status_of, set_status. rewrite getm_setm. destruct (m =? m'); reflexivity.
-Qed.
-Lemma status_set_status_eq : forall s m st, status_of (set_status s m st) m = st.
-Proof. intros. rewrite status_set_status, Nat.eqb_refl. reflexivity. Qed.
-Lemma status_set_status_neq : forall s m st m', m <> m' -> status_of (set_status s m st) m' = status_of s m'.
-Proof. intros. rewrite status_set_status. apply Nat.eqb_neq in H. rewrite H. reflexivity. Qed.
-
-Lemma status_set_phase : forall s m p m', status_of (set_phase s m p) m' = status_of s m'.
-Proof.
-  intros. unfold status_of, set_phase. rewrite getm_setm.
-  destruct (m =? m') eqn:E; [apply Nat.eqb_eq in E; subst|]; reflexivity.
-Qed.
-Lemma status_add_log : forall s e m, status_of (add_log s e) m = status_of s m.
-Proof. reflexivity. Qed.
-
-Lemma mem_In : forall x l, mem x l = true <-> In x l.
-Proof.
-  intros. unfold mem. rewrite existsb_exists. split.
-  - intros [y [H1 H2]]. apply Nat.eqb_eq in H2. subst. assumption.
-  - intros. exists x. split; [assumption | apply Nat.eqb_refl].
-Qed.
-Lemma mem_false : forall x l, mem x l = false <-> ~ In x l.
-Proof.
-  intros. rewrite <- mem_In. destruct (mem x l); intuition congruence.
-Qed.
-
-(* the fields that the synchronous evaluation never touches *)
-Definition same_aux (s s' : gstate) : Prop :=
-  gs_loads s' = gs_loads s /\ gs_proms s' = gs_proms s /\ gs_jobs s' = gs_jobs s /\ gs_acount s' = gs_acount s.
-Lemma same_aux_refl : forall s, same_aux s s.
-Proof. unfold same_aux; auto. Qed.
-Lemma same_aux_trans : forall a b c, same_aux a b -> same_aux b c -> same_aux a c.
-Proof. unfold same_aux; intros a b c (?&?&?&?) (?&?&?&?); repeat split; congruence. Qed.
-Lemma same_aux_set_status : forall s m st, same_aux s (set_status s m st).
-Proof. unfold same_aux; auto. Qed.
-Lemma same_aux_set_phase : forall s m p, same_aux s (set_phase s m p).
-Proof. unfold same_aux; auto. Qed.
-Lemma same_aux_add_log : forall s e, same_aux s (add_log s e).
-Proof. unfold same_aux; auto. Qed.
-
-(* ------------------------------------------------------------------------------------------ *)
-(* the reference: plain depth-first evaluation with a visited set, request order, abort at the first throw *)
-
-Definition sync (g : graph) : Prop := forall m, mi_awaits (info g m) = 0.
-Definition throws (g : graph) (m : nat) : bool := mi_pre (info g m) || mi_post (info g m).
-
-Inductive revent := RStart (m : nat) | REnd (m : nat).
-Definition strip (e : event) : revent :=
-  match e with EvStart m _ => RStart m | EvEnd m _ => REnd m end.
-
-Definition ref_t := list nat -> nat -> list nat * list revent * option nat.
-
-Fixpoint ref_reqs (rec : ref_t) (reqs : list nat) (vis : list nat) : list nat * list revent * option nat :=
-  match reqs with
-  | [] => (vis, [], None)
-  | r :: rest =>
-      match rec vis r with
-      | (vis', l, Some t) => (vis', l, Some t)
-      | (vis', l, None) =>
-          match ref_reqs rec rest vis' with
-          | (vis'', l', o) => (vis'', l ++ l', o)
-          end
-      end
+Fixpoint eval_seq (cf : cfg) (fuel : nat) (g : graph) (s : gstate) (ms : list nat) : gstate :=
+  match ms with
+  | [] => s
+  | m :: rest => eval_seq cf fuel g (fst (evaluate cf fuel g s m)) rest
   end.
 
-Fixpoint ref_dfs (fuel : nat) (g : graph) (vis : list nat) (m : nat) : list nat * list revent * option nat :=
-  match fuel with
-  | 0 => (vis, [], None)
-  | S f =>
-      if mem m vis then (vis, [], None)
-      else
-        match ref_reqs (ref_dfs f g) (requests g m) (m :: vis) with
-        | (vis', l, Some t) => (vis', l, Some t)
-        | (vis', l, None) =>
-            if throws g m then (vis', l ++ [RStart m], Some m)
-            else (vis', l ++ [RStart m; REnd m], None)
-        end
-  end.
+Lemma L_seq : forall cf g fuel, sync g -> length g < fuel -> forall ms s,
+  Ready g s -> (forall m, In m ms -> evaluable (status_of s m) = true) ->
+  Ready g (eval_seq cf fuel g s ms).
+Proof.
+  intros cf g fuel Hsync Hfuel ms. induction ms as [|m rest IH]; intros s HR Hms; [assumption|].
+  simpl. destruct (evaluate cf fuel g s m) as [s' r] eqn:E. simpl.
+  assert (Hm : evaluable (status_of s m) = true) by (apply Hms; simpl; auto).
+  destruct (L_ready cf g fuel s m s' r Hsync HR Hm Hfuel E) as [HR' Hev'].
+  apply IH; [assumption|]. intros x Hx. apply Hev'. apply Hms. simpl; auto.
+Qed.
 
 (* ------------------------------------------------------------------------------------------ *)
-(* invariant of the synchronous evaluation *)
+(* the hypotheses are satisfiable: every module linked, nothing evaluated yet *)
 
-Definition evaluable (st : status) : bool :=
-  match st with Linked _ | Evaluating _ _ _ _ | Evaluated _ _ _ => true | _ => false end.
-Definition is_white (st : status) : bool := match st with Linked _ => true | _ => false end.
+Definition all_linked (g : graph) : gstate :=
+  mkGs (map (fun i => (i, mkMs (Linked 0) [] [] 0 0)) (seq 0 (length g))) [] [] [] [] 0.
 
-Record J (g : graph) (s : gstate) (stack vis : list nat) : Prop := mkJ {
-  J_stack : forall x, In x stack -> exists tlc anc, status_of s x = Evaluating tlc x anc None;
-  J_ev : forall x tlc cr anc ao, status_of s x = Evaluating tlc cr anc ao -> In x stack;
-  J_nodup : NoDup stack;
-  J_closed : forall x r, evaluable (status_of s x) = true -> In r (requests g x) -> evaluable (status_of s r) = true;
-  J_done : forall x tlc cr e, status_of s x = Evaluated tlc cr e ->
-             e = None /\ exists tlc', status_of s cr = Evaluated tlc' cr None;
-  J_vis : forall x, evaluable (status_of s x) = true -> (In x vis <-> is_white (status_of s x) = false)
-}.
-
-(* popping a component whose members are all plain `Evaluating` *)
-Lemma pop_scc_sync : forall m s new below,
-  ~ In m new ->
-  (forall x, In x (new ++ [m]) -> exists tlc anc, status_of s x = Evaluating tlc x anc None) ->
-  NoDup (new ++ [m]) ->
-  exists s', pop_scc m 0 s (new ++ m :: below) = (s', below, None) /\
-    same_aux s s' /\ gs_log s' = gs_log s /\
-    (forall x, In x (new ++ [m]) -> exists tlc, status_of s' x = Evaluated tlc m None) /\
-    (forall x, ~ In x (new ++ [m]) -> status_of s' x = status_of s x).
+Lemma alookup_linked : forall n k x,
+  alookup (map (fun i => (i, mkMs (Linked 0) [] [] 0 0)) (seq k n)) x =
+  if (k <=? x) && (x <? k + n) then mkMs (Linked 0) [] [] 0 0 else ms0.
 Proof.
-  intros m s new. revert s. induction new as [|a new IH]; intros s below Hnin Hst Hnd.
-  - simpl. destruct (Hst m) as (tlc & anc & E); [simpl; auto|]. rewrite E. rewrite Nat.eqb_refl.
-    eexists. split; [reflexivity|]. split; [apply same_aux_set_status|]. split; [reflexivity|]. split.
-    + intros x [<-|[]]. exists tlc. apply status_set_status_eq.
-    + intros x Hx. apply status_set_status_neq. intro; subst; apply Hx; simpl; auto.
-  - simpl. destruct (Hst a) as (tlc & anc & E); [simpl; auto|]. rewrite E.
-    assert (Ham : a <> m) by (intro; subst; apply Hnin; simpl; auto).
-    apply Nat.eqb_neq in Ham as Ham'. rewrite Ham'.
-    set (s1 := set_status s a (Evaluated tlc m None)).
-    inversion Hnd as [|? ? Ha Hnd']; subst.
-    destruct (IH s1 below) as (s' & Hp & Haux & Hlog & Hin & Hout).
-    + intro; apply Hnin; simpl; auto.
-    + intros x Hx. destruct (Hst x) as (t & an & Ex); [simpl; auto|].
-      exists t, an. unfold s1. rewrite status_set_status_neq; [assumption|]. intro; subst; contradiction.
-    + assumption.
-    + exists s'. split; [exact Hp|]. split; [eapply same_aux_trans; [apply same_aux_set_status|exact Haux]|].
-      split; [rewrite Hlog; reflexivity|]. split.
-      * intros x [<-|Hx]; [|apply Hin; assumption].
-        rewrite Hout by assumption. exists tlc. unfold s1. apply status_set_status_eq.
-      * intros x Hx. rewrite Hout by (intro; apply Hx; simpl; auto).
-        unfold s1. apply status_set_status_neq. intro; subst; apply Hx; simpl; auto.
+  induction n as [|n IH]; intros k x; simpl.
+  - destruct (Nat.leb_spec k x), (Nat.ltb_spec x (k + 0)); simpl; try reflexivity; lia.
+  - destruct (Nat.eqb_spec k x).
+    + subst. destruct (Nat.leb_spec x x), (Nat.ltb_spec x (x + S n)); simpl; try reflexivity; lia.
+    + rewrite IH.
+      destruct (Nat.leb_spec (S k) x), (Nat.ltb_spec x (S k + n)), (Nat.leb_spec k x), (Nat.ltb_spec x (k + S n));
+        simpl; try reflexivity; lia.
 Qed.
 
-Lemma execute_sync_spec : forall g s m tlc cr anc ao,
-  status_of s m = Evaluating tlc cr anc ao ->
-  exists s', execute_sync g s m = (s', if throws g m then RErr (EThrow m) else ROk tt) /\
-    (forall x, status_of s' x = status_of s x) /\ same_aux s s' /\
-    map strip (gs_log s') = map strip (gs_log s) ++ (if throws g m then [RStart m] else [RStart m; REnd m]).
+Lemma status_all_linked : forall g x, status_of (all_linked g) x = if x <? length g then Linked 0 else Unlinked.
 Proof.
-  intros. unfold execute_sync. rewrite H. unfold throws.
-  destruct (mi_pre (info g m) || mi_post (info g m)).
-  - eexists; split; [reflexivity|]. split; [|split].
-    + intros. unfold body_start. rewrite status_set_phase, status_add_log, status_set_phase. reflexivity.
-    + unfold same_aux, body_start; simpl; auto.
-    + unfold body_start. simpl. rewrite map_app. reflexivity.
-  - eexists; split; [reflexivity|]. split; [|split].
-    + intros. unfold body_end, body_start.
-      rewrite status_add_log, status_set_phase, status_set_phase, status_add_log, status_set_phase. reflexivity.
-    + unfold same_aux, body_end, body_start; simpl; auto.
-    + unfold body_end, body_start. simpl. rewrite !map_app. simpl. rewrite <- app_assoc. reflexivity.
+  intros g x. unfold status_of, getm, all_linked. simpl. rewrite alookup_linked. simpl.
+  destruct (x <? length g); reflexivity.
 Qed.
 
-Definition ie_post (g : graph) (s : gstate) (stack vis : list nat) (s' : gstate) (stack' : list nat)
-           (vis' : list nat) (rl : list revent) : Prop :=
-  map strip (gs_log s') = map strip (gs_log s) ++ rl /\ same_aux s s' /\
-  J g s' stack' vis' /\ (exists new, stack' = new ++ stack) /\
-  (forall x, evaluable (status_of s' x) = evaluable (status_of s x)).
-
-Definition ie_spec (f : nat) (g : graph) : Prop :=
-  forall cap s stack idx m vis s' stack' r,
-    J g s stack vis -> evaluable (status_of s m) = true ->
-    inner_evaluate f g cap s stack idx m = (s', stack', r) ->
-    r = RFuel \/
-    exists vis' rl thr,
-      ref_dfs f g vis m = (vis', rl, thr) /\
-      ie_post g s stack vis s' stack' vis' rl /\
-      (forall x, In x stack -> status_of s' x = status_of s x) /\
-      match thr with
-      | None => (exists idx', r = ROk idx') /\ is_white (status_of s' m) = false
-      | Some t => r = RErr (EThrow t)
-      end.
-
-Lemma J_set_anc : forall g s stack vis m tlc anc anc',
-  J g s stack vis -> status_of s m = Evaluating tlc m anc None ->
-  J g (set_status s m (Evaluating tlc m anc' None)) stack vis.
+Lemma Ready_all_linked : forall g, (forall x r, x < length g -> In r (requests g x) -> r < length g) ->
+  Ready g (all_linked g).
 Proof.
-  intros g s stack vis m tlc anc anc' HJ Hm.
-  assert (Hin : In m stack) by (eapply J_ev; eauto).
+  intros g Hwf.
+  assert (Hev : forall x, evaluable (status_of (all_linked g) x) = true <-> x < length g).
+  { intros x. rewrite status_all_linked. destruct (x <? length g) eqn:E.
+    - apply Nat.ltb_lt in E. simpl. intuition.
+    - apply Nat.ltb_ge in E. simpl. split; [discriminate|lia]. }
   constructor.
-  - intros x Hx. destruct (Nat.eq_dec m x) as [<-|Hne].
-    + rewrite status_set_status_eq. eauto.
-    + rewrite status_set_status_neq by assumption. eapply J_stack; eauto.
-  - intros x t c a o. destruct (Nat.eq_dec m x) as [<-|Hne].
-    + intros _. assumption.
-    + rewrite status_set_status_neq by assumption. eapply J_ev; eauto.
-  - eapply J_nodup; eauto.
-  - intros x r. rewrite !status_set_status.
-    destruct (m =? x) eqn:E1; destruct (m =? r) eqn:E2; simpl; intros; auto.
-    + apply Nat.eqb_eq in E1; subst. eapply J_closed; eauto. rewrite Hm. reflexivity.
-    + eapply J_closed; eauto.
-  - intros x t c e. destruct (Nat.eq_dec m x) as [<-|Hne].
-    + rewrite status_set_status_eq. discriminate.
-    + rewrite status_set_status_neq by assumption. intros Hx.
-      destruct (J_done _ _ _ _ HJ _ _ _ _ Hx) as (He & t' & Hc). split; [assumption|].
-      exists t'. destruct (Nat.eq_dec m c) as [<-|Hne2]; [congruence|].
-      rewrite status_set_status_neq by assumption. assumption.
-  - intros x. destruct (Nat.eq_dec m x) as [<-|Hne].
-    + rewrite status_set_status_eq. simpl. intros _. pose proof (J_vis _ _ _ _ HJ m). rewrite Hm in H. simpl in H. auto.
-    + rewrite status_set_status_neq by assumption. eapply J_vis; eauto.
+  - intros x. rewrite status_all_linked. destruct (x <? length g); exact I.
+  - intros x r Hx Hr. apply Hev. apply Hev in Hx. eapply Hwf; eauto.
+  - intros x Hx. apply Hev. assumption.
+  - intros x t c. rewrite status_all_linked. destruct (x <? length g); discriminate.
+  - intros x t c e. rewrite status_all_linked. destruct (x <? length g); discriminate.
+  - constructor.
+  - constructor.
+  - intros x [[]|[]].
 Qed.
 
-Lemma er_refine : forall f g, sync g -> ie_spec f g ->
-  forall reqs m s stack idx vis s' stack' r,
-    J g s stack vis -> In m stack ->
-    (forall q, In q reqs -> evaluable (status_of s q) = true) ->
-    eval_requests (fun s st i r => inner_evaluate f g None s st i r) m reqs s stack idx 0 = (s', stack', r) ->
-    r = RFuel \/
-    exists vis' rl thr,
-      ref_reqs (ref_dfs f g) reqs vis = (vis', rl, thr) /\
-      ie_post g s stack vis s' stack' vis' rl /\
-      (forall x, In x stack -> x <> m -> status_of s' x = status_of s x) /\
-      (forall tlc anc, status_of s m = Evaluating tlc m anc None ->
-         exists anc', anc' <= anc /\ status_of s' m = Evaluating tlc m anc' None) /\
-      match thr with
-      | None => exists idx', r = ROk (idx', 0)
-      | Some t => r = RErr (EThrow t)
-      end.
+(* ------------------------------------------------------------------------------------------ *)
+(* Link() followed by Evaluate(), any number of times, from the initial state *)
+
+Lemma settled_after_evaluate : forall cf g fuel s m s' r,
+  sync g -> Ready g s -> settled s -> evaluable (status_of s m) = true -> length g < fuel ->
+  evaluate cf fuel g s m = (s', r) -> settled s'.
 Proof.
-  intros f g Hsync IH reqs. induction reqs as [|q rest IHr]; intros m s stack idx vis s' stack' r HJ Hm Hev Her.
-  - simpl in Her. inversion Her; subst. right. exists vis, [], None. split; [reflexivity|].
-    split; [|split; [|split]].
-    + unfold ie_post. rewrite app_nil_r. split; [reflexivity|]. split; [apply same_aux_refl|].
-      split; [assumption|]. split; [exists []; reflexivity|]. reflexivity.
-    + auto.
-    + intros. exists anc. split; [lia|assumption].
-    + eauto.
-  - simpl in Her.
-    destruct (inner_evaluate f g None s stack idx q) as [[s1 st1] r1] eqn:E1.
-    assert (Hq : evaluable (status_of s q) = true) by (apply Hev; simpl; auto).
-    destruct (IH None s stack idx q vis s1 st1 r1 HJ Hq E1) as [->|(vis1 & rl1 & thr1 & Href1 & Hpost1 & Hun1 & Hres1)].
-    { inversion Her; subst. left; reflexivity. }
-    destruct Hpost1 as (Hlog1 & Haux1 & HJ1 & (new1 & Hst1) & Hevp1).
-    simpl. rewrite Href1.
-    destruct thr1 as [t|].
-    { subst r1. inversion Her; subst. right. exists vis1, rl1, (Some t). split; [reflexivity|].
-      split; [|split; [|split]].
-      - unfold ie_post. split; [assumption|]. split; [assumption|]. split; [assumption|]. split; [eauto|assumption].
-      - intros; apply Hun1; assumption.
-      - intros tlc anc Hsm. exists anc. split; [lia|]. rewrite Hun1; assumption.
-      - reflexivity. }
-    destruct Hres1 as ((idx1 & ->) & Hnw).
-    assert (Hm1 : In m st1) by (rewrite Hst1; apply in_or_app; auto).
-    destruct (J_stack _ _ _ _ HJ m Hm) as (tlcm & ancm & Hsm).
-    assert (Hsm1 : status_of s1 m = Evaluating tlcm m ancm None) by (rewrite Hun1; assumption).
-    assert (Hev1 : forall q', In q' rest -> evaluable (status_of s1 q') = true).
-    { intros q' Hq'. rewrite Hevp1. apply Hev. simpl; auto. }
-    assert (Hq1 : evaluable (status_of s1 q) = true) by (rewrite Hevp1; assumption).
-    (* the continuation, for a state s2 that differs from s1 at most in m's ancestor index *)
-    assert (Hcont : forall s2 anc2, anc2 <= ancm ->
-               s2 = set_status s1 m (Evaluating tlcm m anc2 None) \/ (s2 = s1 /\ anc2 = ancm) ->
-               eval_requests (fun s st i r => inner_evaluate f g None s st i r) m rest s2 st1 idx1 0 = (s', stack', r) ->
-               r = RFuel \/
-               exists vis' rl thr,
-                 (let (p, o) := ref_reqs (ref_dfs f g) rest vis1 in let (vis'', l') := p in (vis'', rl1 ++ l', o)) = (vis', rl, thr) /\
-                 ie_post g s stack vis s' stack' vis' rl /\
-                 (forall x, In x stack -> x <> m -> status_of s' x = status_of s x) /\
-                 (forall tlc anc, status_of s m = Evaluating tlc m anc None ->
-                    exists anc', anc' <= anc /\ status_of s' m = Evaluating tlc m anc' None) /\
-                 match thr with
-                 | None => exists idx', r = ROk (idx', 0)
-                 | Some t => r = RErr (EThrow t)
-                 end).
-    { intros s2 anc2 Hle Hs2 Hrest.
-      assert (HJ2 : J g s2 st1 vis1).
-      { destruct Hs2 as [->|[-> _]]; [eapply J_set_anc; eauto|assumption]. }
-      assert (Hst2 : forall x, x <> m -> status_of s2 x = status_of s1 x).
-      { intros x Hx. destruct Hs2 as [->|[-> _]]; [apply status_set_status_neq; auto|reflexivity]. }
-      assert (Hsm2 : status_of s2 m = Evaluating tlcm m anc2 None).
-      { destruct Hs2 as [->|[-> ->]]; [apply status_set_status_eq|assumption]. }
-      assert (Hevp2 : forall x, evaluable (status_of s2 x) = evaluable (status_of s1 x)).
-      { intros x. destruct (Nat.eq_dec x m) as [->|Hx]; [rewrite Hsm2, Hsm1; reflexivity|rewrite Hst2; auto]. }
-      assert (Haux2 : same_aux s1 s2).
-      { destruct Hs2 as [->|[-> _]]; [apply same_aux_set_status|apply same_aux_refl]. }
-      assert (Hlog2 : gs_log s2 = gs_log s1).
-      { destruct Hs2 as [->|[-> _]]; reflexivity. }
-      destruct (IHr m s2 st1 idx1 vis1 s' stack' r HJ2 Hm1) as [->|(vis' & rl & thr & Href & Hpost & Hun & Hmst & Hres)];
-        [intros q' Hq'; rewrite Hevp2; auto|exact Hrest|left; reflexivity|].
-      right. rewrite Href. exists vis', (rl1 ++ rl), thr. split; [reflexivity|].
-      destruct Hpost as (Hlog & Haux & HJ' & (new & Hst') & Hevp).
-      split; [|split; [|split]].
-      - unfold ie_post. split; [rewrite Hlog, Hlog2, Hlog1, app_assoc; reflexivity|].
-        split; [eapply same_aux_trans; [exact Haux1|eapply same_aux_trans; [exact Haux2|exact Haux]]|].
-        split; [assumption|]. split.
-        + exists (new ++ new1). rewrite Hst', Hst1, app_assoc. reflexivity.
-        + intros x. rewrite Hevp, Hevp2, Hevp1. reflexivity.
-      - intros x Hx Hne. rewrite Hun; [|rewrite Hst1; apply in_or_app; auto|assumption].
-        rewrite Hst2 by assumption. apply Hun1; assumption.
-      - intros tlc anc Hs. rewrite Hsm in Hs. inversion Hs; subst.
-        destruct (Hmst tlc anc2 Hsm2) as (anc' & Hle' & Hs'). exists anc'. split; [lia|assumption].
-      - assumption. }
-    destruct (status_of s1 q) eqn:Esq; try discriminate Hq1.
-    + (* still Linked: impossible *) simpl in Hnw. discriminate.
-    + (* Evaluating: on the stack *)
-      assert (Hqin : In q st1) by (eapply J_ev; eauto).
-      destruct (J_stack _ _ _ _ HJ1 q Hqin) as (tq & aq & Eq'). rewrite Esq in Eq'. inversion Eq'; subst.
-      apply mem_In in Hqin. rewrite Hqin in Her. simpl in Her. rewrite Hsm1 in Her.
-      apply (Hcont (set_status s1 m (Evaluating tlcm m (Nat.min ancm aq) None)) (Nat.min ancm aq)); [lia|left; reflexivity|exact Her].
-    + (* Evaluated *)
-      destruct (J_done _ _ _ _ HJ1 _ _ _ _ Esq) as (-> & t' & Hcr). rewrite Hcr in Her.
-      apply (Hcont s1 ancm); [lia|right; auto|exact Her].
+  intros cf g fuel s m s' r Hsync HR Hset Hm Hfuel Hev.
+  pose proof (evaluate_spec cf g Hsync fuel s m s' r HR Hm Hfuel Hev) as P.
+  intros x. destruct (evaluable (status_of s x)) eqn:E.
+  - pose proof (EP_evaluable _ _ _ _ _ P x E) as E'. pose proof (R_settled _ _ (EP_ready _ _ _ _ _ P) x) as Hs.
+    destruct (status_of s' x); try discriminate; auto.
+  - rewrite (EP_uneval _ _ _ _ _ P x E). apply Hset.
+Qed.
+
+(* one load_link_evaluate without the load phase; None = a panic, an error or fuel exhaustion in one of the phases *)
+Definition link_evaluate (cf : cfg) (fuel : nat) (g : graph) (s : gstate) (m : nat) : gstate * option nat :=
+  match link fuel g s m with
+  | (s1, ROk _) => match evaluate cf fuel g s1 m with
+                   | (s2, ROk c) => (s2, Some c)
+                   | (s2, _) => (s2, None)
+                   end
+  | (s1, _) => (s1, None)
+  end.
+Fixpoint link_evaluate_seq (cf : cfg) (fuel : nat) (g : graph) (s : gstate) (ms : list nat) : gstate * bool :=
+  match ms with
+  | [] => (s, true)
+  | m :: rest => match link_evaluate cf fuel g s m with
+                 | (s', Some _) => link_evaluate_seq cf fuel g s' rest
+                 | (s', None) => (s', false)
+                 end
+  end.
+
+Lemma link_evaluate_spec : forall cf g fuel s m s' o,
+  sync g -> nolinkerr g -> wf g -> Ready g s -> settled s -> m < length g -> length g < fuel ->
+  link_evaluate cf fuel g s m = (s', o) ->
+  Ready g s' /\ settled s' /\ exists c e, o = Some c /\ recorded s' m = Some e /\
+    (e = None <-> forall d, reach g m d -> throws g d = false).
+Proof.
+  intros cf g fuel s m s' o Hsync Hnle Hwf HR Hset Hm Hfuel H. unfold link_evaluate in H.
+  destruct (link fuel g s m) as [s1 r1] eqn:El.
+  destruct (link_spec g Hnle Hwf fuel s m s1 r1 HR Hset Hm Hfuel El) as (-> & HR1 & Hset1 & Hev1 & _).
+  destruct (evaluate cf fuel g s1 m) as [s2 r2] eqn:Ee.
+  destruct (L_total cf g fuel s1 m s2 r2 Hsync HR1 Hev1 Hfuel Ee) as (c & ->).
+  inversion H; subst s' o.
+  split; [apply (L_ready cf g fuel s1 m s2 (ROk c) Hsync HR1 Hev1 Hfuel Ee)|].
+  split; [eapply settled_after_evaluate; eauto|].
+  destruct (L_errors cf g fuel s1 m s2 (ROk c) Hsync HR1 Hev1 Hfuel Ee) as (e & Hrec & Hiff & _).
+  exists c, e. auto.
+Qed.
+
+Lemma Ready_gs0 : forall g, Ready g gs0 /\ settled gs0.
+Proof.
+  intros g. split; [|intros x; exact I]. constructor.
+  - intros x. exact I.
+  - intros x r Hx. discriminate.
+  - intros x Hx. discriminate.
+  - intros x t c E. discriminate.
+  - intros x t c e E. discriminate.
+  - constructor.
+  - constructor.
+  - intros x [[]|[]].
+Qed.
+
+Lemma link_evaluate_seq_spec : forall cf g fuel, sync g -> nolinkerr g -> wf g -> length g < fuel ->
+  forall ms s s' ok, Ready g s -> settled s -> (forall m, In m ms -> m < length g) ->
+  link_evaluate_seq cf fuel g s ms = (s', ok) -> ok = true /\ Ready g s' /\ settled s'.
+Proof.
+  intros cf g fuel Hsync Hnle Hwf Hfuel ms. induction ms as [|m rest IH]; intros s s' ok HR Hset Hms H; simpl in H.
+  - inversion H; subst. auto.
+  - destruct (link_evaluate cf fuel g s m) as [s1 o] eqn:E.
+    assert (Hm : m < length g) by (apply Hms; simpl; auto).
+    destruct (link_evaluate_spec cf g fuel s m s1 o Hsync Hnle Hwf HR Hset Hm Hfuel E) as (HR1 & Hset1 & c & e & -> & _).
+    eapply IH; eauto. intros x Hx. apply Hms. simpl; auto.
 Qed.
